@@ -74,11 +74,13 @@ class Worker:
                     model = W.build_model(pycells, names)
                 ev = L.Evaluator(model)
                 for x in prefix:
-                    a = W.addr(x['x'])
+                    a = W.addr(x['x']) if x['op'] in ('set', 'evaluate') else None
                     if x['op'] == 'set':
                         ev.set_cell_value(a, xl.from_abs(x['v'], 'native'))
                     elif x['op'] == 'evaluate':
                         ev.evaluate(a)
+                    elif x['op'] == 'persistmid':          # an earlier persist of the same model object to the same file
+                        model.persist_to_json_file(path)
                     out['steps'] += 1
                 before = snapshot(model)
                 model.persist_to_json_file(path)
